@@ -48,7 +48,7 @@ UNIT = dict(
 )
 
 
-def R(id, entry, enforce=None, replace=(), loops=False, props=('C15', 'C20'), **kw):
+def R(id, entry, enforce=None, replace=(), loops=False, props=('C15', 'C03', 'C20'), **kw):   # C03 clause (c) rests on the answer lookup: ebusd answers only what is registered for the addressed own address
     d = dict(id=id, entry=entry, enforce=enforce, replace=list(replace), loops=loops, props=list(props))
     d.update(kw)
     UNIT['runs'].append(d)
